@@ -336,7 +336,53 @@ def make_source(src, items):
   raise ValueError(kind)
 
 
-def run_case(case):
+def _disown_pool_threads():
+  """How many of the runner's helper threads are still alive after the iteration ended.  A thread that is parked
+  for ever (e.g. a producer on a full queue) would also block the exit of this harness process: it is taken off
+  the interpreter's exit-time join lists."""
+  import concurrent.futures.thread as cft
+  import threading
+  import time
+  alive = [t for t in threading.enumerate() if t.name.startswith('multiplex_pool') and t.is_alive()]
+  if alive:
+    time.sleep(0.05)
+    alive = [t for t in alive if t.is_alive()]
+  for t in alive:
+    cft._threads_queues.pop(t, None)                          # pylint: disable=protected-access
+    locks = getattr(threading, '_shutdown_locks', None)
+    if locks is not None and getattr(t, '_tstate_lock', None) is not None:
+      locks.discard(t._tstate_lock)                           # pylint: disable=protected-access
+  return len(alive)
+
+
+class Hang(Exception):
+  pass
+
+
+def run_case(case, limit=20):
+  """`_run_case` under a watchdog: a case that does not finish within `limit` seconds is reported as a hang (the
+  cases are tiny: milliseconds)."""
+  import signal
+
+  def on_alarm(signum, frame):
+    raise Hang()
+  try:
+    old = signal.signal(signal.SIGALRM, on_alarm)
+  except ValueError:        # not in the main thread: no watchdog
+    return _run_case(case)
+  signal.alarm(limit)
+  try:
+    return _run_case(case)
+  except Hang:
+    return dict(build=None, hang=True)
+  except RecursionError:
+    return dict(build=None, hang=True, recursion=True)
+  finally:
+    signal.alarm(0)
+    signal.signal(signal.SIGALRM, old)
+
+
+def _run_case(case):
   """The real pipeline through the public API; returns the canonical observation."""
   from absl import logging as alog
   alog.set_verbosity(alog.FATAL)        # the runner logs every exception it re-raises
@@ -372,7 +418,8 @@ def run_case(case):
   elif _snapshot(items) != ids:
     mutated = 'caller containers replaced'
   real_sinks = [s for s in sinks if isinstance(s, RecSink)]
-  return dict(build=None, out=out, err=err, cause=cause, msg=msg,
+  threads_alive = _disown_pool_threads() if case.get('threads') else 0
+  return dict(build=None, out=out, err=err, cause=cause, msg=msg, threads_alive=threads_alive,
               logs=[s.log for s in real_sinks], closed=[s.closed for s in real_sinks],
               write_after_close=sum(s.write_after_close for s in real_sinks), mutated=mutated)
 
